@@ -35,9 +35,14 @@ def apply_edit(root, m):
     open(p, 'w').write(s.replace(m['old'], m['new']))
 
 
+JOBS = 1
+
+
 def run_check(pid, root, tier='quick', seed='1'):
     out = tempfile.mkdtemp(prefix='verif-out-')
     env = dict(os.environ, VERIF_REPO_ROOT=root, VERIF_OUT=out, VERIF_SEED=seed)
+    if JOBS > 1:
+        env['VERIF_NPROC'] = str(max(2, 16 // JOBS))
     try:
         p = subprocess.run([os.path.join(VERIF, 'check'), pid, '--tier', tier], env=env, stdout=subprocess.PIPE, stderr=subprocess.STDOUT, timeout=3600)
         text = p.stdout.decode('utf-8', 'replace')
@@ -55,16 +60,33 @@ def repo_tests_pass(root):
 def selftest(pid, only=None, check_tests=False):
     path = os.path.join(VERIF, 'mutants', '%s.json' % pid)
     muts = json.load(open(path)) if os.path.exists(path) else []
+    muts = [m for m in muts if not only or only in m['name']]
+    if JOBS > 1:
+        import concurrent.futures
+        results = []
+        with concurrent.futures.ThreadPoolExecutor(JOBS) as ex:
+            for r in ex.map(lambda m: _selftest_one(pid, m, check_tests, quiet=True), muts):
+                results.append(r[:4])
+                print(r[4], end='')
+        return results
+    return [_selftest_one(pid, m, check_tests)[:4] for m in muts]
+
+
+def _selftest_one(pid, m, check_tests, quiet=False):
+    lines = []
+
+    def say(x):
+        lines.append(x + '\n')
+        if not quiet:
+            print(x)
     results = []
-    for m in muts:
-        if only and only not in m['name']:
-            continue
+    for m in [m]:
         root = scratch_copy()
         try:
             try:
                 apply_edit(root, m)
             except RuntimeError as e:
-                print('%-8s %-55s exit=2 HARNESS-ERROR %s' % (pid, m['name'], e))
+                say('%-8s %-55s exit=2 HARNESS-ERROR %s' % (pid, m['name'], e))
                 results.append((m['name'], 2, [], None))
                 continue
             tests_ok = None
@@ -73,14 +95,14 @@ def selftest(pid, only=None, check_tests=False):
             rc, text = run_check(pid, root)
             sigs = [l.strip()[len('signature: '):] for l in text.splitlines() if l.strip().startswith('signature: ')]
             results.append((m['name'], rc, sigs[:4], tests_ok))
-            print('%-8s %-55s exit=%d %s %s' % (pid, m['name'], rc, 'CAUGHT' if rc == 1 else ('HARNESS-ERROR' if rc == 2 else 'MISSED'), '' if tests_ok is None else ('repo-tests=%s' % ('pass' if tests_ok else 'FAIL'))))
+            say('%-8s %-55s exit=%d %s %s' % (pid, m['name'], rc, 'CAUGHT' if rc == 1 else ('HARNESS-ERROR' if rc == 2 else 'MISSED'), '' if tests_ok is None else ('repo-tests=%s' % ('pass' if tests_ok else 'FAIL'))))
             for s in sigs[:3]:
-                print('           %s' % s[:150])
+                say('           %s' % s[:150])
             if rc == 2:
-                print(text[-800:])
+                say(text[-800:])
         finally:
             shutil.rmtree(root, ignore_errors=True)
-    return results
+    return results[0] + (''.join(lines),)
 
 
 def seeded(name, pids, tier='quick'):
@@ -114,11 +136,24 @@ def main(argv):
     if not argv:
         print(__doc__)
         return 2
+    global JOBS
+    if '--jobs' in argv:
+        i = argv.index('--jobs')
+        JOBS = int(argv[i + 1])
+        del argv[i:i + 2]
     if argv[0] == 'seeded':
         names = sorted(os.listdir(os.path.join(VERIF, 'seeded'))) if argv[1] == 'all' else [argv[1]]
-        for n in names:
+
+        def one(n):
             meta = json.load(open(os.path.join(VERIF, 'seeded', n, 'meta.json')))
             seeded(n, argv[2:] or meta.get('checks', [meta['property']]))
+        if JOBS > 1:
+            import concurrent.futures
+            with concurrent.futures.ThreadPoolExecutor(JOBS) as ex:
+                list(ex.map(one, names))
+        else:
+            for n in names:
+                one(n)
         return 0
     check_tests = '--tests' in argv
     argv = [a for a in argv if a != '--tests']
